@@ -3,6 +3,7 @@ package harness
 import (
 	"math"
 	"math/rand"
+	"sync"
 
 	"pipelined.dev/signal"
 )
@@ -195,6 +196,32 @@ func driveConvert(s *shardSet, rng *rand.Rand, thorough bool) ([]string, map[str
 		}
 	}
 	driveBigConvert(s, rng, thorough)
+	// the same kind of work from several goroutines at once, on buffers that share nothing: a conversion may not
+	// depend on what other goroutines convert (scratch buffers, tables, pools shared between calls)
+	var wg sync.WaitGroup
+	concurrentRecording = true
+	for g := range s.ws {
+		wg.Add(1)
+		go func(g int) {
+			defer wg.Done()
+			sub := &shardSet{ws: []*World{s.ws[g]}, files: []string{s.files[g]}}
+			r := rand.New(rand.NewSource(int64(g)*31 + 5))
+			driveWideningSeries(sub, r)
+			for _, f := range ConvFns {
+				w := sub.Next()
+				w.Reset()
+				sty := f.Src[r.Intn(len(f.Src))]
+				src := w.spreadSource(sty, 2, 40+r.Intn(200))
+				for k := 0; k < 6; k++ {
+					w.Alloc(f.Dst[r.Intn(len(f.Dst))], 2, w.Views[src].Length(), w.Views[src].Length())
+					w.Convert(f.Name, src, len(w.Views)-1)
+					w.Drop(len(w.Views) - 1)
+				}
+			}
+		}(g)
+	}
+	wg.Wait()
+	concurrentRecording = false
 	return BuiltinTypes, map[string]int{"instantiations": inst}
 }
 
